@@ -12,6 +12,8 @@ class P(piperun.PipeProperty):
     def relevant(self, p):
         return p['op'] != 'cycle'
 
+    source_modes = ('pickle', 'pickle', 'wu', 'copy')
+
     def oracle(self, p, obs):
         return oracles.c02(p, obs)
 
